@@ -221,10 +221,14 @@ func (k *checker) reparse(alpha []byte, order *int64) {
 	// A from the extra length, B from the base set
 	run((n-n4)*n4, func(i int64) (*rpItem, *rpItem) { return items[n4+i/n4], items[i%n4] })
 	pairs := n4*n + (n-n4)*n4
+	extraDesc := "none (thorough tier only)"
+	if extraLen > 0 {
+		extraDesc = fmt.Sprintf("accepted strings of length %d: %d items", extraLen, n-n4)
+	}
 	c.Nontrivial(nontriv.Load())
 	c.Scope("e:reparse", "what", "every ordered pair (A,B) of library-accepted strings with at least one of them in the base set: var X Labels; X.FromBytes(A); encA := X.ToBytes(); Y := X; X.FromBytes(B); Z := X; X.FromBytes(A) — Y and encA still A, X after B is B, Z still B, X after A again is A",
 		"base_set", fmt.Sprintf("accepted strings over the alphabet of length ≤ %d (%d items) + %d structural items (compressed, partial, 63-byte labels, 255-octet names, pointers at offsets ≥ 256, buffer sizes 5..67)", small, nSmall, int(n4)-nSmall),
-		"extra_set", fmt.Sprintf("accepted strings of length %d: %d items", extraLen, n-n4),
+		"extra_set", extraDesc,
 		"strings_enumerated", enumerated, "alphabet", fw.Hex(alpha), "pairs", pairs, "pairs_both_must_accept_and_different", nontriv.Load())
 	c.Sample(map[string]any{"scope": "e:reparse", "A": "03 'tgt' 01 'x' 00 01 'p' c0 04", "B": "01 'a' 00", "names_A": `["tgt.x" "p.x"]`})
 }
